@@ -275,3 +275,67 @@ func VerifC13TAReinstateAfterRelease() {
 	verifAssert("C13.ta.container-resources-unchanged", verifSameViews(views, w.containerViews()))
 	verifAssert("C13.ta.pool-capacities-unchanged", supplies.same(w.supplySnapshot()))
 }
+
+// VerifC09TAMemQuiescence: as VerifC09TAQuiescence under memory pressure:
+// two NUMA nodes of symbolic capacity, containers with symbolic memory limits
+// admitted through offers that displace earlier containers, then everything
+// released: the memory allocator is back to its initial state (no request, no
+// usage in any node set, free = capacity).
+func VerifC09TAMemQuiescence() {
+	_, _, ncpu := verifMachine(0)
+	allowed, reserved, isolated := verifSymbolicConstraints(ncpu, 0)
+	caps := []int64{verifNondetInt64("memcap"), verifNondetInt64("memcap")}
+	maxMem := int64(verifParam("maxMem", 1<<20))
+	for _, c := range caps {
+		verifAssume(verifAnd(c >= 1, c <= maxMem))
+	}
+	w := verifNewPolicyMem(0, caps, allowed, reserved, isolated, verifDefaultConfig())
+	ma := w.p.memAllocator
+	allocs := verifParam("allocs", 2)
+	for k := 0; k < allocs; k++ {
+		c := w.newContainer(int64(verifParam("maxMilli", 500)))
+		c.memLimit = verifNondetInt64("memlimit")
+		verifAssume(verifAnd(c.memLimit >= 0, c.memLimit <= maxMem))
+		if err := w.p.AllocateResources(c); err != nil {
+			verifCover("mem-quiescence-allocate-refused")
+		}
+	}
+	moved := false
+	for _, c := range w.ctrs {
+		if z, ok := ma.AssignedZone(c.id); ok && z == 3 {
+			moved = true
+		}
+	}
+	if moved {
+		verifCover("some-zone-widened")
+	}
+	first := 0
+	if verifParam("orders", 1) != 0 {
+		first = verifChoice("first", len(w.ctrs))
+	}
+	order := []int{first}
+	for i := range w.ctrs {
+		if i != first {
+			order = append(order, i)
+		}
+	}
+	for _, i := range order {
+		c := w.ctrs[i]
+		c.state = cache.ContainerStateExited
+		verifAssert("C09.release-never-fails", w.p.ReleaseResources(c) == nil)
+	}
+	verifCover("mem-quiescent")
+	verifAssert("C09.ta.no-memory-allocations", w.libmemEmpty())
+	pristine := true
+	for z := libmem.NodeMask(1); z <= 3; z++ {
+		var capacity int64
+		for i := 0; i < 2; i++ {
+			if z&(1<<uint(i)) != 0 {
+				capacity += caps[i]
+			}
+		}
+		pristine = verifAnd(pristine, verifAnd(ma.ZoneUsage(z) == 0, ma.ZoneFree(z) == capacity))
+		pristine = verifAnd(pristine, ma.ZoneNumUsers(z) == 0)
+	}
+	verifAssert("C09.ta.memory-zones-pristine", pristine)
+}
